@@ -137,3 +137,76 @@ Proof.
   repeat split; left; reflexivity.
 Qed.
 Print Assumptions C14F_noreplay_loses_address_refuted.
+
+(** * The content of the replay: a live, replayed owner keeps its address across a start-up.
+    Side condition [sole_addr o a s]: [a] is the only entry of [o] in vips/.  After SvcRestart (initialize) the device
+    of an owner carries the address listed LAST for it in vips/; SvcCreate then finds that device and re-uses its
+    address without allocating (Owners.svc_create, branch [dget o = Some d], [d_ip d = Some a]); it never
+    re-allocates for an owner that has a vips entry.  With two entries the kept one is listing-order dependent
+    ([C14F_two_addresses_order_dependent]). *)
+Theorem C14F_startup_keeps_live_address : forall c order t s o a,
+  wf c s -> (forall n, live (fget n t) = true -> In n (s_res s)) ->
+  nodup_z order = true -> In o order -> is_dot o = false -> replayable (fget o t) = true ->
+  lookup Z.eqb a (s_vips s) = Some o -> sole_addr o a s = true ->
+  let s' := run c (snd (fst (startup c order t s))) s in
+  lookup Z.eqb a (s_vips s') = Some o /\ dev_holds (s_devs s') o a = true /\ dev_stale (s_devs s') o = false.
+Proof. intros c order t s o a H1 H2 H3 H4 H5 H6 H7 H8. exact (startup_keeps_live_address c order t s o a H1 H2 H3 H4 H5 H6 H7 H8). Qed.
+Print Assumptions C14F_startup_keeps_live_address.
+
+(** the reclaim direction: an address the start-up takes from its holder belonged to a request that is not handed
+    over - the container is gone, request.yml is gone, or the schema rejects the payload *)
+Theorem C14F_startup_frees_only_gone_or_unreplayable : forall c order t s o a,
+  wf c s -> (forall n, live (fget n t) = true -> In n (s_res s)) ->
+  nodup_z order = true -> In o order -> is_dot o = false ->
+  lookup Z.eqb a (s_vips s) = Some o -> sole_addr o a s = true ->
+  lookup Z.eqb a (s_vips (run c (snd (fst (startup c order t s))) s)) <> Some o ->
+  replayable (fget o t) = false.
+Proof. intros c order t s o a H1 H2 H3 H4 H5 H6 H7 H8. exact (startup_frees_only_unreplayable c order t s o a H1 H2 H3 H4 H5 H6 H7 H8). Qed.
+Print Assumptions C14F_startup_frees_only_gone_or_unreplayable.
+
+(** whole histories: from the empty node, after any history [fs1], an owner that reads [a] in its reply, holds [a]
+    (directory and device) and holds nothing else keeps it through every continuation [fs2] that leaves its request
+    alone ([spares]: no client delete of [o], its container does not vanish, nobody removes its request.yml, its own
+    puts carry a valid payload, every start lists the directory without repetition and with [o] in it) - across any
+    number of restarts, other owners' requests and releases, stray events; and any reply it reads names [a].
+    PARTIAL in one respect: that the owner holds what its reply names ([lookup], [dev_holds], [sole_addr] at the end of
+    [fs1]) is a hypothesis here, not derived from [fs1]. *)
+Theorem C14F_history_keeps_told_address_partial : forall c o a fs1 fs2,
+  let st1 := fst (frame_run c fs1 fstate0) in
+  0 <= o -> replayable (fget o (f_tbl st1)) = true ->
+  client_get (fget o (f_tbl st1)) = Some (RepOk a) ->
+  lookup Z.eqb a (s_vips (f_own st1)) = Some o -> dev_holds (s_devs (f_own st1)) o a = true ->
+  sole_addr o a (f_own st1) = true ->
+  forallb (spares o) fs2 = true ->
+  let st2 := fst (frame_run c fs2 st1) in
+  lookup Z.eqb a (s_vips (f_own st2)) = Some o /\ dev_holds (s_devs (f_own st2)) o a = true /\
+  replayable (fget o (f_tbl st2)) = true /\
+  (client_get (fget o (f_tbl st2)) = None \/ client_get (fget o (f_tbl st2)) = Some (RepOk a)).
+Proof. intros c o a fs1 fs2 st1 H1 H2 H3 H4 H5 H6 H7. exact (history_keeps_told_address c o a fs1 fs2 H1 H2 H3 H4 H5 H6 H7). Qed.
+Print Assumptions C14F_history_keeps_told_address_partial.
+
+(** non-vacuity: owner 1 is told .1; then restarts, another owner coming and going, a repeated request of owner 1
+    with another environment, a stray event, a stop with a request in between - owner 1 still holds .1 *)
+Definition exf_fs1 := [FBoot []; FPut 1 1].
+Definition exf_fs2 := [FPut 2 2; FStop; FBoot [2; 1]; FDelete 2; FPut 1 3; FTouch (PName 1); FStop; FPut 3 1; FGone 2;
+                       FBoot [1; 3]; FGet 1].
+Example C14F_history_nonvacuous :
+  let st1 := fst (frame_run exf_c exf_fs1 fstate0) in
+  let st2 := fst (frame_run exf_c exf_fs2 st1) in
+  replayable (fget 1 (f_tbl st1)) = true /\ client_get (fget 1 (f_tbl st1)) = Some (RepOk 167772161) /\
+  lookup Z.eqb 167772161 (s_vips (f_own st1)) = Some 1 /\ dev_holds (s_devs (f_own st1)) 1 167772161 = true /\
+  sole_addr 1 167772161 (f_own st1) = true /\ forallb (spares 1) exf_fs2 = true /\
+  client_get (fget 1 (f_tbl st2)) = Some (RepOk 167772161) /\
+  s_vips (f_own st2) = [(167772161, 1); (167772162, 3)].
+Proof. vm_compute. repeat split. Qed.
+
+(** the side condition is needed: an owner with two entries in vips/ (a second one allocated behind the service)
+    comes out of the start-up with the address listed last on its device, not the one it was told *)
+Example C14F_two_addresses_order_dependent :
+  let s := run exf_c [ResUp 1; SvcCreate 1 1; VipAlloc 1 None] empty_state in
+  let t := [(1, {| e_link := true; e_dir := true; e_req := Some 1; e_uid := true; e_reply := Some (RepOk 167772161) |})] in
+  let s' := run exf_c (snd (fst (startup exf_c [1] t s))) s in
+  dev_holds (s_devs s) 1 167772161 = true /\ sole_addr 1 167772161 s = false /\
+  dev_holds (s_devs s') 1 167772161 = false /\ dev_holds (s_devs s') 1 167772162 = true /\
+  s_vips s' = [(167772161, 1); (167772162, 1)].
+Proof. vm_compute. repeat split. Qed.
